@@ -123,6 +123,8 @@ where
 		self.is_running.store(true, Ordering::Relaxed);
 		loop {
 			let wallet_opened = {
+				#[cfg(feature = "verif_hooks")]
+				let _verif_scope = crate::verif::lock_scope();
 				let mut w_lock = self.wallet_inst.lock();
 				let w_provider = w_lock.lc_provider()?;
 				w_provider.wallet_inst().is_ok()
